@@ -166,7 +166,9 @@ def run(ctx):
                 dname = txt(dst.targets[0]) if isinstance(dst, ast.Assign) else None
                 for d in dedups:
                     srcs = [txt(g_.iter) for g_ in d.generators] if isinstance(d, (ast.DictComp, ast.SetComp)) else [txt(a_) for a_ in d.args]
-                    if dname and any(dname in s_ for s_ in srcs):
+                    src_nodes = [g_.iter for g_ in d.generators] if isinstance(d, (ast.DictComp, ast.SetComp)) else list(d.args)
+                    direct = any(x is draws[0] for s_ in src_nodes for x in ast.walk(s_))      # the draw is written in place
+                    if direct or (dname and any(dname in s_ for s_ in srcs)):
                         o.violated(hf, d, f"rows are drawn WITH replacement (`{txt(draws[0])}`) and then collapsed by `{txt(d)[:60]}...`: a vertex drawn twice gains only one stub, "
                                           "so fewer stubs than the deficit are added and the total is not divisible by the motif size")
                         return
